@@ -157,6 +157,13 @@ class Spec:
             return p.value is None
         if isinstance(p, (ast.List, ast.Dict, ast.Tuple, ast.Set, ast.JoinedStr, ast.ListComp, ast.DictComp)):
             return False
+        if isinstance(p, ast.Call):
+            fname = p.func.attr if isinstance(p.func, ast.Attribute) else (p.func.id if isinstance(p.func, ast.Name) else "")
+            if fname in ("partial", "methodcaller", "itemgetter", "attrgetter", "list", "dict", "tuple", "set", "frozenset", "str", "bytes",
+                         "int", "float", "bool", "bytearray", "sorted") or (fname[:1].isupper() and fname.isidentifier()):
+                return False    # constructors never return None
+        if isinstance(p, ast.Lambda):
+            return False
         at = self.where.get(id(p))
         d = self._decide_expr(p, at, depth + 1)
         if d is True:
